@@ -140,6 +140,25 @@ type Embeds struct {
 	Name string
 }
 
+// EmbedsLate embeds structs after other fields (non-zero offset) and two levels deep.
+type EmbedsLate struct {
+	Name string
+	Inner
+	X int
+	InnerP
+	Deep
+}
+
+type Deep struct {
+	D1 int
+	DeepInner
+}
+
+type DeepInner struct {
+	DI string
+	DJ *int
+}
+
 type Node struct {
 	V    int
 	Next *Node
@@ -215,7 +234,7 @@ type Empty struct{}
 var StructTypes = []reflect.Type{
 	reflect.TypeOf(One{}), reflect.TypeOf(OnePtr{}), reflect.TypeOf(OneMap{}), reflect.TypeOf(OneStr{}),
 	reflect.TypeOf(Scalars{}), reflect.TypeOf(Ptrs{}), reflect.TypeOf(Libs{}), reflect.TypeOf(Slices{}),
-	reflect.TypeOf(Maps{}), reflect.TypeOf(Tagged{}), reflect.TypeOf(Embeds{}), reflect.TypeOf(Node{}),
+	reflect.TypeOf(Maps{}), reflect.TypeOf(Tagged{}), reflect.TypeOf(Embeds{}), reflect.TypeOf(EmbedsLate{}), reflect.TypeOf(Node{}),
 	reflect.TypeOf(Tree{}), reflect.TypeOf(MutA{}), reflect.TypeOf(MutB{}), reflect.TypeOf(Nested{}),
 	reflect.TypeOf(Unreg{}), reflect.TypeOf(Empty{}), reflect.TypeOf(G{}), reflect.TypeOf(H{}),
 }
